@@ -137,6 +137,13 @@ class Adapter(EnvAdapter):
     def make_alt(self, cfg):
         return self._build(cfg["ctor"], "sparse" if cfg["ctor"]["reward_fn"] == "dense" else "dense")
 
+    def project_state(self, env, state):
+        out = super().project_state(env, state)
+        # the float32 comparisons the rule is about, exactly (the fixed-point export cannot tell 0.5 from 0.5 + one ulp)
+        w = np.asarray(state.weights, dtype=np.float32)
+        out["fits"] = [bool(x) for x in (w <= np.float32(np.asarray(state.remaining_budget)))]
+        return out
+
     def cfg_record(self, cfg, env):
         c = cfg["ctor"]
         # what the harness REQUESTED; the budget is stored by jumanji as a float32 scalar
